@@ -877,11 +877,25 @@ def delete_unused_functions_and_classes(
         or (node.name in preserve and parsing.is_magic_method(funcdef))
     }
 
+    # A decorator may register what it decorates (routes, fixtures, plugins, handlers)
+    plain_decorators = {"staticmethod", "classmethod", "property", "dataclass", "lru_cache", "cache"}
+
+    def is_registered(node) -> bool:
+        return not all(
+            isinstance(decorator, (ast.Name, ast.Attribute))
+            and getattr(decorator, "id", getattr(decorator, "attr", None)) in plain_decorators
+            for decorator in node.decorator_list
+        )
+
     for node in core.walk(root, (ast.FunctionDef, ast.AsyncFunctionDef)):
+        if is_registered(node):
+            continue
         if node.name not in preserve and node not in preserved_class_funcdefs:
             funcdefs.append(node)
 
     for node in core.walk(root, ast.ClassDef):
+        if is_registered(node):
+            continue
         if node.name not in preserve:
             classdefs.append(node)
 
